@@ -1,13 +1,13 @@
 #!/bin/sh
 # usage: confirm_mutant.sh <Cxx> <A|B>   -- confirms a sub-agent's change in its scratch worktree /tmp/wt/<Cxx>:
 #  demo passes on pristine, patch applies, stable tests keep their counts, demo fails with the change.
-ID=$1; V=$2; WT=/tmp/wt/$ID; OUT=/tmp/wt/out/$ID/$V
+ROOT=${ROOT:-/tmp/wt2}; ID=$1; V=$2; WT=$ROOT/$ID; OUT=$ROOT/out/$ID/$V
 cd $WT || exit 2
 git checkout -q -- . && git clean -fdq
 export DEMO_REPO=$WT
 timeout 900 /venv/bin/python $OUT/demo.py > $OUT/confirm_pristine.log 2>&1; d0=$?
 git apply $OUT/patch.diff || { echo "$ID/$V patch-does-not-apply"; exit 1; }
-tests=$(/tmp/wt/run_stable_tests.sh $WT | tail -1)
+tests=$($ROOT/run_stable_tests.sh $WT | tail -1)
 timeout 900 /venv/bin/python $OUT/demo.py > $OUT/confirm_mutant.log 2>&1; d1=$?
 git checkout -q -- . && git clean -fdq
 echo "$ID/$V demo_pristine=$d0 demo_mutant=$d1 tests: $tests"
